@@ -30,6 +30,8 @@ CLAIMED = {
    text="TLC checks for every corpus root and every misspelt name at every level that the suggestion the machine attaches is among the best names eligible at that position per the declarative side (never skipped / flatten members, parent names only through direct flatten hand-off, only above threshold) and that no other leaf carries one; the real parser's suggestions are compared with that set, each suggested name is re-submitted and must not be unknown, and the run is repeated without the suggestions feature."),
  "C18": dict(engine="Shapes", design_ref="4.7, 5/C18", technique="TLA+ spec (Shapes.tla: word parsing, ShapeSet, generated __validate_body) model-checked with TLC exhaustively against the documented table; compiled receiver family and the ShapeSet API replayed",
    text="TLC checks all 2048 subsets of the shape words (and all FromVariant forms) against every body incl. unions and empty enums: verdict and error count of the transcribed validator equal the documented table; a compiled family of receivers (all 2048 in the thorough tier) is executed on every body and the stand-alone ShapeSet API is checked exhaustively."),
+ "C16": dict(engine="Body", design_ref="4.7, 5/C16", technique="TLA+ spec of body conversion (Body.tla: Data::try_from / Fields::try_from / variant fields) model-checked with TLC against the declarative verdict and failure set; every body replayed on a generated family of receivers over all subsets of magic fields, parts compared token-wise with the input",
+   text="TLC checks for every body within bounds and every assignment of failing members that conversion fails exactly when a member fails or the element is a union, keeps one entry per member in source order and reports every failure with named fields located by name; each body is then rendered with varied visibility / types / generics and given to receivers declaring every subset of magic fields (plain, custom converter, SpannedValue / WithOriginal / Result wrappers), whose every part must equal the input's."),
 }
 
 NOT_YET = "check not built yet (planned, see DESIGN.md section 5)"
